@@ -71,6 +71,7 @@ def run(ck):
         recs = rng.sample(recs, limit)
     for rec in recs:
         replay(ck, em, rec, rng)
+    many_blocks(ck, em, rng, 10 if quick else 80)
 
 
 def flat_choices(order):
@@ -255,3 +256,77 @@ def replay(ck, em, rec, rng):
         if ne and fb == 1 and ne != rb:
             ck.notes.append("%s: %d e_step tasks for %d row blocks" % (k, ne, rb))
     ck.sample({"mechanism": "M2", "scenario": scn, "verdict": "replayed"}, limit=5)
+
+
+def many_blocks(ck, em, rng, count):
+    """SameModel beyond the block counts TLC enumerates: 7 ... 129 row blocks (around the powers of two, odd and even,
+    single-row blocks among them), the rows ordered so that the last blocks hold a cluster of their own."""
+    import dask
+    import dask.array as da
+    for i in range(count):
+        seed = rng.randrange(10 ** 6)
+        r = np.random.RandomState(seed)
+        B = [7, 16, 31, 32, 33, 40, 47, 63, 64, 65, 70, 97, 128, 129][i % 14]
+        n = B + int(r.randint(0, B + 1))
+        D = int(r.randint(1, 4))
+        C = 2
+        centres = r.normal(size=(C, D)) * 3
+        lab = np.sort(r.randint(0, C, size=n))
+        lab[-max(2, n // 10):] = 1          # the trailing rows differ from the leading ones
+        lab[:2] = 0
+        X = centres[lab] + r.normal(size=(n, D))
+        cuts = np.sort(r.choice(np.arange(1, n), size=B - 1, replace=False))
+        comp = tuple(int(v) for v in np.diff(np.concatenate([[0], cuts, [n]])))
+        Xd = da.from_array(X, chunks=(comp, D))
+        scn = {"rows": n, "features": D, "row_blocks": B, "row_chunks": list(comp), "seed": seed}
+        ck.replayed += 1
+        ck.seen(["many-blocks", seed, B])
+
+        def same(a, b):
+            a, b = np.asarray(a, dtype=float), np.asarray(b, dtype=float)
+            return a.shape == b.shape and np.allclose(a, b, rtol=1e-8, atol=1e-10)
+
+        def bad(trainer, clause, detail):
+            ck.violation("M3:ArrayTrain:%s:%s" % (trainer, clause), {"mechanism": "M3", "module": "ArrayTrain", "trainer": trainer,
+                                                                   "scenario": scn, "detail": detail})
+        init = X[[0, n - 1]].copy() + 0.1
+        try:
+            with dask.config.set(scheduler="synchronous"):
+                ok = True
+                for cap, thr in ((2, None), (8, 1e-2)):
+                    ref = em.KMeansMachine(C, init_method=init.copy(), max_iter=cap, convergence_threshold=thr).fit(X)
+                    got = em.KMeansMachine(C, init_method=init.copy(), max_iter=cap, convergence_threshold=thr).fit(Xd)
+                    if not (same(got.centroids_, ref.centroids_) and same([got.average_min_distance], [ref.average_min_distance])):
+                        bad("kmeans", "SameModel", "%d row blocks: centroids %s / criterion %r, in-memory %s / %r" % (
+                            B, np.asarray(got.centroids_).tolist(), got.average_min_distance, np.asarray(ref.centroids_).tolist(),
+                            ref.average_min_distance))
+                        ok = False
+                        break
+                    v1, w1 = ref.get_variances_and_weights_for_each_cluster(X)
+                    v2, w2 = got.get_variances_and_weights_for_each_cluster(Xd)
+                    if not (same(v2, v1) and same(w2, w1)):
+                        bad("kmeans", "SameClusterStatistics", "%d row blocks: cluster variances / weights differ from the in-memory ones" % B)
+                        ok = False
+                        break
+                for trainer in (("ml", "map") if ok else ()):
+                    def mk():
+                        kw = dict(max_fitting_steps=3, convergence_threshold=None, update_means=True, update_variances=True,
+                                  update_weights=True)
+                        if trainer == "map":
+                            prior = em.GMMMachine(C)
+                            prior.means, prior.variances, prior.weights = centres + 0.3, np.ones((C, D)) * 1.5, np.array([0.4, 0.6])
+                            return em.GMMMachine(C, trainer="map", ubm=prior, **kw)
+                        m = em.GMMMachine(C, **kw)
+                        m.means, m.variances, m.weights = centres + 0.3, np.ones((C, D)) * 1.5, np.array([0.4, 0.6])
+                        return m
+                    ref, got = mk().fit(X), mk().fit(Xd)
+                    if any(not same(getattr(got, f), getattr(ref, f)) for f in ("means", "variances", "weights")):
+                        bad("gmm-" + trainer, "SameModel", "%d row blocks: the model differs from the in-memory result" % B)
+                        break
+                    if not same(np.asarray(got.log_likelihood(Xd)), np.asarray(ref.log_likelihood(X))):
+                        bad("gmm-" + trainer, "SameScores", "%d row blocks: log_likelihood of the Dask array differs" % B)
+                        break
+        except Exception as e:      # noqa: BLE001
+            bad("array", "Raised", "%d row blocks: %s: %s" % (B, type(e).__name__, e))
+            continue
+        ck.sample({"mechanism": "M3", "scenario": {k: scn[k] for k in ("rows", "features", "row_blocks", "seed")}, "verdict": "ok"}, limit=4)
